@@ -64,7 +64,7 @@ def get_pauli_group(num_qubit, /, kind='numpy', use_sparse=False):
     return ret
 
 def _pauli_index_int_to_str(index:int, num_qubit:int):
-    assert 0<=index<=4**num_qubit
+    assert 0<=index<4**num_qubit
     ret = ''
     tmp0 = 'IXYZ'
     for _ in range(num_qubit):
